@@ -445,6 +445,8 @@ class SlotAnalysis:
         return out
 
     def _may_number_slots(self, f: Func) -> bool:
+        if f.name.endswith("_index") or f.name.startswith(("initial_", "init_")):
+            return True  # the public layout functions: always worth reading from the value
         for n in ast.walk(f.node):
             if isinstance(n, ast.Call):
                 d = dotted(n.func) or ""
